@@ -101,7 +101,7 @@ class Resolver:
 
         def hook(mm, text):
             if text in ('N',) and self.n_value is not None:
-                return self.n_value
+                return self.n_value(mm) if callable(self.n_value) else self.n_value
             if text == 'ARRAY_TUPLE_LIMIT':
                 return G['limit']
             q = re.match(r'^<(.+) as (?:crate::|::ts_rs::|ts_rs::)?TS>::(IS_OPTION|DOCS)$', text)
@@ -137,6 +137,10 @@ class Resolver:
         ty = re.sub(r'\b(?:std::num::)?NonZero<([ui])(\d+|size)>', lambda a: 'NonZero' + a.group(1).upper() + a.group(2), ty)
         if ty in self.abstract:
             return self.hole(ty, meth, m)
+        oi = re.match(r'^<(\w+) as (?:crate::|::ts_rs::|ts_rs::)?TS>::OptionInnerType$', ty)
+        if oi and oi.group(1) in self.abstract:
+            # the associated type of an abstract parameter: another abstract type (equal to the parameter itself unless it is an Option)
+            return self.hole(oi.group(1) + '.OptionInner', meth, m)
         d = self.DUMMY.match(ty)
         if d and d.group(1) in G['corpus']:
             item = G['corpus'][d.group(1)]
@@ -162,13 +166,20 @@ class Resolver:
                 if f'TS::{meth}' in m.fns:
                     return self.run(m, f'TS::{meth}', {'Self': ty}, args)
                 raise Unsupported(f'no method {meth} for corpus type {ty}')
-            saved = self.current_item
-            if meth == 'decl':
-                self.current_item = mh.group(1)
-            try:
-                return self.run(m, fn, sub, args)
-            finally:
-                self.current_item = saved
+            rewrite = None
+            if meth == 'decl' and item['free']:
+                # inside decl() the local dummy structs shadow the type parameters of the same name; rustc prints them sometimes as
+                # `<X<..> as TS>::decl::P` and sometimes as a bare `P`: canonicalise every such mention to the qualified form
+                gen_text = ', '.join(p_[1] for p_ in item['params'] if p_[0] != 'lifetime')
+                qual = lambda p_: f'<{mh.group(1)}<{gen_text}> as TS>::decl::{p_}'
+                rx_q = re.compile(r'<' + mh.group(1) + r'<[^<>]*> as (?:::ts_rs::|ts_rs::)?TS>::decl::(\w+)')
+                rx_b = re.compile(r'(?<!\x02)\b(' + '|'.join(map(re.escape, item['free'])) + r')\b(?!\x03)')
+
+                def rewrite(text, rx_q=rx_q, rx_b=rx_b, qual=qual):
+                    text = rx_q.sub(lambda a: '\x02' + a.group(1) + '\x03', text)
+                    text = rx_b.sub(lambda a: '\x02' + a.group(1) + '\x03', text)
+                    return re.sub('\x02(\\w+)\x03', lambda a: qual(a.group(1)), text)
+            return self.run(m, fn, sub if rewrite is None else {}, args, rewrite)
         # built-in impls
         for self_ty, gens, meths, kind, shadow in G['builtin']:
             sub = c12.type_unify(self_ty, ty, set(gens))
@@ -179,13 +190,16 @@ class Resolver:
                 return self.run(m, f'TS::{meth}', {'Self': ty}, args)
         raise Unsupported(f'no impl found for {callee}')
 
-    def run(self, m, fn_key, sub, args):
+    def run(self, m, fn_key, sub, args, rewrite=None):
         saved = getattr(m, 'cur_subst', {})
+        saved_fr = m.frame_rewrite
         m.cur_subst = dict(sub)
+        m.frame_rewrite = rewrite
         try:
             return m.exec_fn(m.fns[fn_key], args)
         finally:
             m.cur_subst = saved
+            m.frame_rewrite = saved_fr
 
 
 def machine(ctx, resolver):
